@@ -174,7 +174,13 @@ class DocGen:
             return ('<mc:AlternateContent><mc:Choice Requires="wps"><w:drawing><wp:anchor><a:graphic><a:graphicData uri="u"><wps:wsp><wps:txbx><w:txbxContent>'
                     + inner + '</w:txbxContent></wps:txbx></wps:wsp></a:graphicData></a:graphic></wp:anchor></w:drawing></mc:Choice><mc:Fallback><w:pict><v:shape><v:textbox><w:txbxContent>'
                     + (''.join(self.par(d + 1) for _ in range(k)) if self.p.get('tokens') else inner) + '</w:txbxContent></v:textbox></v:shape></w:pict></mc:Fallback></mc:AlternateContent>')
-        if kind == 'instr': return '<w:instrText xml:space="preserve"> PAGE </w:instrText>'
+        if kind == 'instr':
+            if r.random() < 0.12 and self.p.get('ruby', True):
+                # a phonetic guide: runs nested in a run
+                self.feat.add('ruby')
+                return ('<w:ruby><w:rubyPr><w:rubyAlign w:val="center"/></w:rubyPr><w:rt>' + self.run(d, rpr=self.rpr(), in_link=True if self.p.get('no_textbox_in_link') else in_link) + '</w:rt><w:rubyBase>'
+                        + self.run(d, rpr='', in_link=True if self.p.get('no_textbox_in_link') else in_link) + '</w:rubyBase></w:ruby>')
+            return '<w:instrText xml:space="preserve"> PAGE </w:instrText>'
         if kind == 'deltext': return '<w:delText>gone</w:delText>'
         return r.choice(['<w:commentReference w:id="0"/>', '<w:noBreakHyphen/>', '<w:softHyphen/>', '<w:lastRenderedPageBreak/>',
                          '<w:ptab w:relativeTo="margin" w:alignment="right" w:leader="none"/>', '<w:annotationRef/>', '<w:separator/>',
@@ -231,8 +237,10 @@ class DocGen:
             return r.choice(['<w:bookmarkStart w:id="1" w:name="bm"/>', '<w:bookmarkEnd w:id="1"/>', '<w:proofErr w:type="gramStart"/>', '<w:proofErr w:type="spellEnd"/>',
                              '<w:permEnd w:id="3"/>', '<w:moveFromRangeStart w:id="5" w:name="m"/>'])
         if kind == 'ins':
-            t = r.choice(['ins', 'moveTo', 'smartTag'])
+            t = r.choice(['ins', 'moveTo', 'smartTag', 'del', 'moveFrom'] if self.p.get('tracked_deletions', True) else ['ins', 'moveTo', 'smartTag'])
             a = ' w:element="e"' if t == 'smartTag' else ' w:id="3" w:author="a"'
+            if t == 'del':      # deleted text is w:delText: not content
+                return f'<w:del{a}><w:r>{self.rpr()}<w:delText xml:space="preserve">deleted text</w:delText></w:r></w:del>'
             return f'<w:{t}{a}>' + self.run(d, in_link=in_link) + f'</w:{t}>'
         if kind == 'fld': return '<w:fldSimple w:instr=" PAGE ">' + self.run(d, in_link=in_link) + '</w:fldSimple>'
         if kind == 'sdt': return '<w:sdt><w:sdtPr><w:dropDownList><w:listItem w:value="a"/></w:dropDownList></w:sdtPr><w:sdtEndPr/><w:sdtContent>' + self.run(d, in_link=in_link) + '</w:sdtContent></w:sdt>'
